@@ -227,13 +227,17 @@ def _run_one(args):
         warnings.simplefilter("ignore")
         try:
             ctx = Ctx(tier="quick", overlay={rel: newsrc})
-            keys = set()
+            keys, errs = set(), []
             for rule in REGISTRY[pid]["rules"]:
-                rs = rule(ctx)
+                try:
+                    rs = rule(ctx)
+                except Exception as e:  # as in run_property: a rule that lost its anchor does not hide the others
+                    errs.append("ANALYSIS-ERROR:" + type(e).__name__ + ":" + str(e)[:80])
+                    continue
                 rs = rs if isinstance(rs, (list, tuple)) else [rs]
                 for r in rs:
                     keys |= {f.key for f in r.findings}
-            return sorted(keys)
+            return sorted(keys) + errs
         except Exception as e:  # an analysis error on a mutant counts as detection (fail-closed)
             return ["ANALYSIS-ERROR:" + type(e).__name__ + ":" + str(e)[:80]]
 
